@@ -248,6 +248,33 @@ theorem C01_heap_eval_text (cc : CharClass) (src : Text) (ast : Block) (r : RBlo
     | _ => True :=
   SimH.heap_eval_text cc src ast r bc hp hc hin F
 
+/-! ### consequence for C10: how the compiler implements an expression is unobservable -/
+
+/-- TWO SPELLINGS WITH THE SAME MEANING BEHAVE THE SAME ON THE MACHINE: if two texts (for instance a
+    program and one of its variants: a literal replaced by a variable, a comparison mirrored,
+    statements prepended that shift and merge constant-pool entries) both pass the stage-5 validation
+    and the definitional semantics gives them the same answer, then `eval` gives them the same answer
+    for every large enough instruction budget — however differently the compiler implemented them
+    (different constant pools, fused or unfused instructions, other slots).  Corollary of
+    `C01_heap_eval_text`. -/
+theorem C01_same_meaning_same_behaviour (cc : CharClass) (src1 src2 : Text) (a1 a2 : Block) (r1 r2 : RBlock) (b1 b2 : Bytecode)
+    (hp1 : parse cc src1 = .ok a1) (hc1 : compileProgram a1 = .ok (r1, b1)) (hin1 : SimH.inFragmentH r1 = true)
+    (hp2 : parse cc src2 = .ok a2) (hc2 : compileProgram a2 = .ok (r2, b2)) (hin2 : SimH.inFragmentH r2 = true)
+    (F1 F2 : Nat) (t : Tree) (out : List Text)
+    (h1 : specText cc F1 src1 = .value t out) (h2 : specText cc F2 src2 = .value t out) :
+    ∃ n, ∀ k, evalText cc (n + k) src1 = evalText cc (n + k) src2 := by
+  have e1 := SimH.heap_eval_text cc src1 a1 r1 b1 hp1 hc1 hin1 F1
+  have e2 := SimH.heap_eval_text cc src2 a2 r2 b2 hp2 hc2 hin2 F2
+  rw [h1] at e1; rw [h2] at e2
+  obtain ⟨n1, e1⟩ := e1
+  obtain ⟨n2, e2⟩ := e2
+  refine ⟨n1 + n2, fun k => ?_⟩
+  have a := e1 (n2 + k)
+  have b := e2 (n1 + k)
+  rw [← Nat.add_assoc] at a
+  rw [← Nat.add_assoc, Nat.add_comm n2 n1] at b
+  rw [a, b]
+
 /-- `stel a = [1.5, "x"]; stel b = a; b[0] = a; print(a, lengte(a)); zolang lengte(a) < 1 { stop }; a[1][0] + "y"` -/
 def heapAst : Block :=
   .cons (.letS "a".toList (.arr (.cons (.float 0x3FF8000000000000) (.cons (.str "x".toList) .nil))))
